@@ -1,6 +1,6 @@
 (* Proofs/CliPathsProofs.v — the clobbering decision of c2patool over its whole (finite) predicate domain. *)
 From Coq Require Import List Bool.
-From C2PA Require Import Model.CliPaths.
+From C2PA Require Import Generated.C32_facts Model.CliPaths.
 Import ListNotations.
 
 Ltac fin := match goal with |- In ?x _ => destruct x; simpl; tauto end.
@@ -44,12 +44,14 @@ Definition frag_init_witness : cli :=
   Build_cli true false ODir Different true false false SAbsent false false FGlob true false false.
 
 Lemma sidecar_refuted :
+  sidecar_write_guarded = false ->
   exists r, realisable r = true /\ force r = false /\ In (Write PSidecar) (decide r) /\ exists_before r PSidecar = true.
-Proof. exists sidecar_witness. vm_compute. intuition. Qed.
+Proof. intro G. exists sidecar_witness. revert G. vm_compute. intuition congruence. Qed.
 
 Lemma frag_init_refuted :
+  frag_init_guarded = false ->
   exists r, realisable r = true /\ force r = false /\ In (Write PFragInit) (decide r) /\ exists_before r PFragInit = true.
-Proof. exists frag_init_witness. vm_compute. intuition. Qed.
+Proof. intro G. exists frag_init_witness. revert G. vm_compute. intuition congruence. Qed.
 
 (* the known classes are exact on realisable records: known <-> the property fails *)
 Lemma known_exact_all : forallb (fun r => implb (realisable r) (eqb (known r) (negb (no_clobber_b r)))) all_cli = true.
@@ -57,8 +59,8 @@ Proof. vm_compute. reflexivity. Qed.
 
 Lemma known_exact : forall r, realisable r = true -> known r = negb (no_clobber_b r).
 Proof.
-  intros r R. pose proof (lift _ known_exact_all r) as H. cbv beta in H. rewrite R in H. simpl in H.
-  apply eqb_prop in H. exact H.
+  intros r R. pose proof (lift _ known_exact_all r) as H. cbv beta in H. rewrite R in H.
+  destruct (known r), (no_clobber_b r); try reflexivity; discriminate H.
 Qed.
 
 (* a refusal by the tool itself (bail!) happens before anything is modified *)
@@ -81,7 +83,7 @@ Definition names (e : effect) (p : cpath) : bool :=
   match e with
   | Remove q | Write q | RemoveTree q | Mkdir q =>
       match p, q with
-      | PIn, PIn | POut, POut | PSidecar, PSidecar | POutChild, POutChild
+      | PIn, PIn | POut, POut | POutParent, POutParent | PSidecar, PSidecar | POutChild, POutChild
       | PFragDir, PFragDir | PFragSeg, PFragSeg | PFragInit, PFragInit => true
       | _, _ => false
       end
